@@ -37,6 +37,9 @@ def run(ctx):
     check_container_handles(ctx, prog)
     check_ranges(ctx, prog)
     check_tostring(ctx, prog)
+    # a Var object is a Dic<Var>: keys enter the sorted array through the key search only (shared rule C02.map)
+    import C02
+    C02.check_map(ctx, prog)
     # the element lifetime rules of Array, on the instantiations Var's containers use (Array<Var>, Array<char>, the Dic storage):
     # removing / inserting children must construct and destroy each child exactly once
     n_l = C01.check_lifetime(ctx, prog)
